@@ -143,7 +143,35 @@ def check_encoding(ctx, model, nptdms, segs, stats):
             else:
                 what += ": %s vs %s" % (str(a)[:100], str(b)[:100])
             vio.append(Violation(what, dict(kind="normalform", file=data.hex(), explicit=xdata.hex(), encoding=gen_files.to_line(segs))))
+        # the same through the lazy API (per-segment object indexes and the offset index are only consulted there)
+        if r.get("ok") and rx.get("ok"):
+            la, lb = lazy_content(data, nptdms), lazy_content(xdata, nptdms)
+            stats["lazy_normal_forms"] = stats.get("lazy_normal_forms", 0) + 1
+            if la != lb:
+                diff = next((p for p in sorted(set(la) | set(lb)) if la.get(p) != lb.get(p)), None)
+                vio.append(Violation("TdmsFile.open: encoding and its explicit normal form read differently (%r: %s vs %s)" % (
+                    diff, str(la.get(diff))[:120], str(lb.get(diff))[:120]), dict(kind="normalform-lazy", file=data.hex(), explicit=xdata.hex(), encoding=gen_files.to_line(segs))))
     return dis, vio
+
+
+def lazy_content(data, nptdms):
+    """{path: (len, read_data(), data_chunks() concatenated, first / last element)} through TdmsFile.open"""
+    import corr_lazy as cl
+    out = {}
+    try:
+        f, _ = cl.open_real(data, nptdms)
+    except Exception as ex:  # noqa
+        return {"<open>": repr(ex)[:100]}
+    for ch in cl.channels_of(f):
+        n = len(ch)
+        ent = [n]
+        for fn in (lambda: cl.canon_out(ch.read_data(scaled=False)), lambda: [cl.chan_chunk(c._raw_data) for c in ch.data_chunks()],
+                   lambda: [canon.scalar_hex(ch[i]) for i in ([0, n - 1] if n else [])]):
+            r = cl.call(fn)
+            ent.append(canon.norm(r[1]) if r[0] == "ok" else ("raised", r[1]))
+        # chunk boundaries may differ between encodings only if the chunking differs; the explicit form keeps the chunking
+        out[ch.path] = ent
+    return out
 
 
 def forbidden_mutants(rnd, segs):
